@@ -109,5 +109,15 @@ claim(
     "alias writes its own target path; `cls` is tested before `kind`. Byte-identical re-serialisation over generated trees is not decided.",
     TB,
 )
+claim(
+    "C09",
+    "table agreement between docs/schema.json and the full-form JSON writers extracted from the AST: required vs always-written keys "
+    "(CFG must-pass under full=True), declared keys, JSON type sets inferred from declared attribute types narrowed by guards, enum "
+    "coverage; exception-flow check of the getters the full writer evaluates",
+    "Every schema obligation that can be read off the writers is decided for all object kinds, aliases, docstrings, decorators, parameters "
+    "and docstring sections: anything the schema requires is always written, anything written is declared, every JSON shape a value can "
+    "take is allowed, every section kind the code can emit is listed. Validation of concrete generated dumps is not performed.",
+    TB + "; docs/schema.json is read at run time; provenance tables (decorator linenos, parameter kinds) are verified structurally",
+)
 for _p in [f"C{n:02d}" for n in range(1, 20) if f"C{n:02d}" not in CLAIMED]:
     NOT_YET[_p] = "check under construction in this round (static rules designed in DESIGN.md section 3; not yet registered)"
